@@ -27,6 +27,8 @@ m = {
 for p in props:
     pid = p["id"]
     c = registry.CHECKS.get(pid)
+    if c and not os.path.exists(os.path.join(V, "evidence", pid + ".json")):
+        c = None    # a check is claimed only once it has run here and written its evidence
     if not c:
         m["not_applicable"].append({"property_id": pid, "reason": getattr(registry, "NA", {}).get(pid, registry.PENDING)})
         continue
